@@ -832,7 +832,7 @@ pub fn run(ctx: &Ctx, rep: &Report) {
         ctx,
         rep,
         "foreign-random",
-        ctx.tier.pick(3_000, 60_000),
+        ctx.tier.pick(3_000, 600_000),
         &|| {
             (0u8..7, prop_oneof![0usize..200, (0usize..80).prop_map(|k| k * 64), 0usize..5000], prop::sample::select(TYS.to_vec()))
                 .prop_map(|(shape, n, ty)| Foreign { shape, n, seed: 0, ty })
@@ -840,7 +840,7 @@ pub fn run(ctx: &Ctx, rep: &Report) {
         },
         &check_foreign,
     );
-    run_prop(ctx, rep, "random", ctx.tier.pick(20_000, 400_000), &|| case(4096), &check);
+    run_prop(ctx, rep, "random", ctx.tier.pick(20_000, 4_000_000), &|| case(4096), &check);
     // a few large slices
     let large: Vec<Case> = [1usize << 16, 1 << 20]
         .iter()
